@@ -809,6 +809,29 @@ fn make_var_heavy(r: &mut Rng, p: &mut Prog, d: &J) {
             p.rules[k].body.lets.push(Let { name: format!("unused{}", i), val });
         }
     }
+    // a parameterised rule called several times with different arguments, from different
+    // rules and twice from one rule: what a call binds must not survive into the next call,
+    // whichever comes first (the history part of "a call is its body with the arguments put in")
+    if r.chance(1, 2) {
+        let k1 = key(r);
+        let k2 = key(r);
+        let pq = |v: &str| Query { some: false, parts: vec![Part::Var(v.to_string())] };
+        let mut plines = vec![
+            Line { alts: vec![Clause::Cmp(Cmp { not: false, q: pq("pa"), op: Op::Exists, opnot: false, rhs: None, msg: None })] },
+            Line { alts: vec![Clause::Cmp(Cmp { not: false, q: pq("pin"), op: *r.pick(&[Op::IsString, Op::IsList, Op::IsStruct]), opnot: r.chance(1, 2), rhs: None, msg: None })] },
+            Line { alts: vec![Clause::Cmp(Cmp { not: false, q: pq("pb"), op: Op::Eq, opnot: false, rhs: Some(rules::Rhs::Lit(J::Int(1))), msg: None })] },
+        ];
+        r.shuffle(&mut plines);
+        p.prules.push(rules::PRule { name: "pchk".into(), params: vec!["pa".into(), "pb".into()], body: Body { lets: vec![Let { name: "pin".into(), val: Arg::Query(pq("pa")) }], lines: plines } });
+        let call = |k: &str, lit: i64, not: bool| Line { alts: vec![Clause::Call { not, name: "pchk".into(), args: vec![Arg::Query(Query { some: false, parts: vec![Part::Key(k.to_string())] }), Arg::Lit(J::Int(lit))], msg: None }] };
+        let missing = format!("{}_zz", k2);
+        p.rules.push(Rule { name: "probe_call_a".into(), when: vec![], body: Body { lets: vec![], lines: vec![call(&k1, 1, false)] } });
+        p.rules.push(Rule { name: "probe_call_b".into(), when: vec![], body: Body { lets: vec![], lines: vec![call(&k2, 2, false)] } });
+        p.rules.push(Rule { name: "probe_call_c".into(), when: vec![], body: Body { lets: vec![], lines: vec![call(&missing, 1, r.chance(1, 2))] } });
+        let mut two = vec![call(&k1, 1, false), call(&k2, 1, false)];
+        r.shuffle(&mut two);
+        p.rules.push(Rule { name: "probe_call_d".into(), when: vec![], body: Body { lets: vec![], lines: two } });
+    }
     // two rules of one name (legal), each with its own rule-level variable of the same
     // name bound to something else; no rule refers to them by name
     if r.chance(1, 3) {
@@ -875,6 +898,9 @@ impl Check for C15 {
         make_var_heavy(&mut r, &mut p, &d);
         if p.print().contains("unused") {
             rep.count("gen.unused_vars", 1);
+        }
+        if !p.prules.is_empty() {
+            rep.count("gen.parameterised_rule_calls", 1);
         }
         if p.rules.iter().filter(|x| x.name == "twin").count() == 2 {
             rep.count("gen.same_name_rules_own_variable", 1);
